@@ -1,20 +1,23 @@
 #!/bin/bash
 # usage: tools/runmut.sh <dir with patch.diff [demo_test.go notes.md]> <checks...>
-# Applies a seeded change to /repo, runs the repo's own tests (must pass), the given checks, and restores /repo.
+# Applies a seeded change to a scratch worktree of /repo (never to /repo itself), runs the repo's own tests
+# (must pass), then the given checks with VERIF_REPO pointing at the worktree, and restores the worktree.
 set -u
 D=$1; shift
+W=${MUT_WT:-/tmp/wt/eval}
 export GOFLAGS=-mod=mod GOPROXY=off GOSUMDB=off GOTOOLCHAIN=local
-cd /repo
-if [ -n "$(git status --porcelain)" ]; then echo "REPO DIRTY - abort"; exit 3; fi
+cd $W || exit 3
+git checkout -q --detach $(git -C /repo rev-parse HEAD) 2>/dev/null
+git checkout -- . && git clean -fdq
 if ! git apply --check "$D/patch.diff" 2>/dev/null; then echo "PATCH DOES NOT APPLY"; exit 3; fi
 git apply "$D/patch.diff"
-trap 'cd /repo && git checkout -- . && git clean -fdq' EXIT
-if ! go build ./... 2>/tmp/mutbuild.err; then echo "MUTANT DOES NOT BUILD"; cat /tmp/mutbuild.err | head; exit 3; fi
+trap 'cd $W && git checkout -- . && git clean -fdq' EXIT
+if ! go build ./... 2>/tmp/mutbuild.err; then echo "MUTANT DOES NOT BUILD"; head /tmp/mutbuild.err; exit 3; fi
 T=$(go test -vet=off -count=1 ./... 2>&1 | grep -v "no test files" | grep -v "^ok" | head -5)
-if [ -n "$T" ]; then echo "REPO TESTS FAIL WITH MUTANT:"; echo "$T"; fi
+if [ -n "$T" ]; then echo "REPO TESTS FAIL WITH MUTANT:"; echo "$T"; else echo "repo tests pass with mutant"; fi
 cd /verif
 for c in "$@"; do
-  out=$(timeout 1500 ./vcheck $c 2>&1); rc=$?
+  out=$(VERIF_REPO=$W timeout 1500 ./vcheck $c 2>&1); rc=$?
   echo "== $c rc=$rc $(echo "$out" | grep -c '^VIOLATION') violation(s)"
   echo "$out" | grep -A1 "^VIOLATION\|INFRA" | cut -c1-260 | head -4
 done
